@@ -21,7 +21,7 @@ from typing import Any, Callable, Iterable, Iterator
 
 VERIF = Path(__file__).resolve().parent.parent
 LEAN = VERIF / "lean"
-DRIVER = LEAN / ".lake" / "build" / "bin" / "driver"
+DRIVER = Path(os.environ.get("VERIF_DRIVER") or LEAN / ".lake" / "build" / "bin" / "driver")   # override: development only
 ALLOWED_AXIOMS = {"propext", "Classical.choice", "Quot.sound"}
 FORBIDDEN_RE = re.compile(
     r"\bsorry\b|\badmit\b|^\s*axiom\s|native_decide|bv_decide|implemented_by|\bunsafe\s|maxHeartbeats\s+0\b"
